@@ -146,6 +146,27 @@ def apply_op(f, op, kind, is_ref):
     raise ValueError('unknown op %r' % (op,))
 
 
+def apply_raw(f, op, ft):
+    """one op of an 'F' history on a plain io / temporary-file object (the reference the theorems refine to)"""
+    name = op[0]
+    if name == 'g' or name == 'l':
+        if hasattr(f, 'getvalue'):
+            v = f.getvalue()
+        else:
+            pos = f.tell()
+            f.seek(0)
+            v = f.read()
+            f.seek(pos)
+        return v if name == 'g' else len(v)
+    if name == 'se':
+        if ft != 'b':
+            return f.seek(len(f.getvalue()) - op[1])
+        return f.seek(-op[1], os.SEEK_END)
+    if name == 'sc' and ft != 'b':
+        return f.seek(f.tell() + op[1])
+    return apply_op(f, op, 'B' if ft == 'b' else 'S', True)
+
+
 def reference(case):
     """run the history on io.BytesIO / io.StringIO(newline=''); returns (in_domain, appending, records)"""
     kind = case['k']
@@ -177,6 +198,26 @@ def reference(case):
     return in_domain, appending, recs
 
 
+def no_lone_cr(t):
+    """every CR is immediately followed by LF (Lean: noLoneCR)"""
+    return all(i + 1 < len(t) and t[i + 1] == '\n' for i, ch in enumerate(t) if ch == '\r')
+
+
+def default_reference(case):
+    """the same history on the DEFAULT io.StringIO() (newline='\\n': a line ends at LF only), or None when a
+    line-cutting op meets a lone CR in what is left to read (Lean: lfOnly / string_refines_default_StringIO)"""
+    ref = io.StringIO()
+    recs = []
+    for op in case['ops']:
+        if base(op) in ('rl', 'rL', 'rs', 'n', 'it', 'dr') and not no_lone_cr(ref.getvalue()[ref.tell():]):
+            return None
+        v = apply_op(ref, op, 'S', True)
+        if op[0] in ('w', 'wl', 'ro', 'fn'):
+            v = None
+        recs.append([['STOP'] if v is StopIteration else canon(v, True), ref.tell()])
+    return recs
+
+
 def mfr_text(case):
     """MultiFileReader() with no members joins with '' (all([]) is True): a text reader"""
     return bool(case['text']) or not case['files']
@@ -201,6 +242,56 @@ def mfr_expected(case):
         pos += len(chunk)
         out.append(canon(chunk, text))
     return out
+
+
+# the functions of CPython's Lib/codecs.py that SpooledStringIO runs on (through codecs.EncodedFile) and that
+# C18.Model transliterates by hand; `codecs_facts` re-reads them from the running interpreter's source on every run
+CODECS_TRANSLITERATED = ['StreamReader.__init__', 'StreamReader.read', 'StreamReader.readline', 'StreamReader.reset',
+                         'StreamReader.seek', 'StreamWriter.write', 'StreamWriter.reset', 'StreamWriter.seek',
+                         'StreamRecoder.__init__', 'StreamRecoder.read', 'StreamRecoder.readline',
+                         'StreamRecoder.readlines', 'StreamRecoder.write', 'StreamRecoder.writelines',
+                         'StreamRecoder.seek', 'StreamRecoder.reset', 'StreamRecoder.__getattr__', 'EncodedFile']
+
+
+def _strip_doc(fn):
+    if fn.body and isinstance(fn.body[0], ast.Expr) and isinstance(getattr(fn.body[0], 'value', None), ast.Constant) \
+            and isinstance(fn.body[0].value.value, str):
+        fn.body = fn.body[1:] or [ast.Pass()]
+    return fn
+
+
+def codecs_facts():
+    """(readline's first read size, the cap of its doubling, the factor, digest of the transliterated functions) read
+    from the source of the `codecs` module of the interpreter that runs the implementation"""
+    import codecs
+    import hashlib
+    tree = ast.parse(open(codecs.__file__).read())
+    top = {n.name: n for n in tree.body if isinstance(n, (ast.ClassDef, ast.FunctionDef))}
+    h = hashlib.sha256()
+    nodes = {}
+    for q in CODECS_TRANSLITERATED:
+        node = top[q.split('.')[0]]
+        if '.' in q:
+            node = {m.name: m for m in node.body if isinstance(m, ast.FunctionDef)}[q.split('.')[1]]
+        nodes[q] = _strip_doc(node)
+        h.update((q + ':' + ast.dump(node) + '\n').encode())
+    rs = cap = factor = None
+    for n in ast.walk(nodes['StreamReader.readline']):
+        if isinstance(n, ast.Assign) and getattr(n.targets[0], 'id', None) == 'readsize' and \
+                isinstance(n.value, ast.BoolOp) and isinstance(n.value.op, ast.Or) and \
+                isinstance(n.value.values[-1], ast.Constant):
+            rs = n.value.values[-1].value
+        if isinstance(n, ast.If) and isinstance(n.test, ast.Compare) and getattr(n.test.left, 'id', None) == 'readsize' \
+                and len(n.test.ops) == 1 and isinstance(n.test.ops[0], ast.Lt) and \
+                isinstance(n.test.comparators[0], ast.Constant) and len(n.body) == 1 and \
+                isinstance(n.body[0], ast.AugAssign) and isinstance(n.body[0].op, ast.Mult) and \
+                getattr(n.body[0].target, 'id', None) == 'readsize' and isinstance(n.body[0].value, ast.Constant):
+            cap, factor = n.test.comparators[0].value, n.body[0].value.value
+    for v in (rs, cap, factor):
+        if not isinstance(v, int) or isinstance(v, bool) or v < 0:
+            raise ValueError('codecs.StreamReader.readline no longer has the shape `readsize = size or N` / '
+                             '`if readsize < CAP: readsize *= K`: %r' % ((rs, cap, factor),))
+    return rs, cap, factor, h.hexdigest()[:32]
 
 
 class C18(Property):
@@ -228,11 +319,18 @@ class C18(Property):
             'temporary-file members) x every op sequence up to length 2 (3 thorough) over read(1..3, 9) / read() / read(0) / '
             'seek(0), plus random ones. Non-trivial = B/S: data was written, a read or iteration returned data after a seek '
             'or query, and the object rolled over or (S) holds a multi-byte character; M: at least 2 members and a sized '
-            'read or a seek(0) after a read. distinct = distinct canonical cases.')
-    ASSUMPTIONS = ['io.BytesIO and tempfile.TemporaryFile are the same abstract file (content + position) for the listed calls',
+            'read or a seek(0) after a read. F (round 3): the plain reference file of the theorems by itself (Lean Spec.run '
+            'for bytesSem / textSem / lfSem) against the real io.BytesIO AND tempfile.TemporaryFile / io.StringIO(newline="") / '
+            'the default io.StringIO(): every op sequence of length 2 (3 after a write) over a 15-17 op alphabet plus random '
+            'histories, overwriting writes and (bytes) seeks, writes and reads past the end included; non-trivial = a '
+            'write or read after a seek. distinct = distinct canonical cases.')
+    ASSUMPTIONS = ['io.BytesIO and tempfile.TemporaryFile are the same abstract file (content + position) for the listed calls '
+                   '(round 3: tested directly on every run, kind F: same history on both objects and on the Lean reference file)',
                    'text is a sequence of Unicode scalar values (no lone surrogates); UTF-8 is modelled as a prefix code with '
                    'Char.utf8Size code units per character, decoded incrementally (whole characters, rest kept)',
-                   'the reference for SpooledStringIO is io.StringIO(newline=""): LF, CR and CRLF end a line, untranslated',
+                   'the reference for SpooledStringIO is io.StringIO(newline=""): LF, CR and CRLF end a line, untranslated; '
+                   'the default io.StringIO() (LF only) is a second reference on histories whose line-cutting ops meet no '
+                   'lone CR (Lean: string_refines_default_StringIO; with a lone CR the two io objects differ themselves)',
                    'seek(n, SEEK_CUR) / seek(n, SEEK_END) on SpooledStringIO are judged as code-point moves (n forward / '
                    'only n = 0 from the end), the forms io.StringIO itself supports being the n = 0 ones',
                    'f.rollover() / f.fileno() (which rolls over first) may be called at any point: io reference = no-op',
@@ -244,7 +342,8 @@ class C18(Property):
     EXTRA_TRUSTED = ['CPython 3.12 codecs.StreamReader.read/readline/seek/reset and StreamRecoder wrappers, transliterated by '
                      'hand into the model (C18.Reader) and differential-tested through SpooledStringIO']
     CORRESPONDENCE_NAME = ('C18.Driver (SBytes / SStr incl. codecs.StreamReader / MFR models) vs boltons.ioutils '
-                           'SpooledBytesIO / SpooledStringIO / MultiFileReader')
+                           'SpooledBytesIO / SpooledStringIO / MultiFileReader; the reference file Spec.run vs io.BytesIO, '
+                           'tempfile.TemporaryFile, io.StringIO')
 
     # ------------------------------------------------------------------ translator
     def regen(self):
@@ -257,12 +356,22 @@ class C18(Property):
         if not isinstance(val, int) or isinstance(val, bool) or val < 0:
             raise ValueError('READ_CHUNK_SIZE is not a non-negative int literal: %r' % (val,))
         self._chunk_const = val
+        rs, cap, factor, digest = codecs_facts()
         return {'C18_Consts.lean':
-                '/- GENERATED by harness/bv/props/c18.py (regen) from boltons/ioutils.py — do not edit. -/\n'
+                '/- GENERATED by harness/bv/props/c18.py (regen) from boltons/ioutils.py and the running interpreter\'s\n'
+                '   Lib/codecs.py — do not edit. -/\n'
                 'namespace C18.Generated\n\n'
                 '/-- `boltons.ioutils.READ_CHUNK_SIZE` -/\n'
                 'def READ_CHUNK_SIZE : Nat := %d\n\n'
-                'end C18.Generated\n' % val}
+                '/-- `codecs.StreamReader.readline`: `readsize = size or <this>` -/\n'
+                'def CODECS_READLINE_SIZE : Nat := %d\n\n'
+                '/-- `codecs.StreamReader.readline`: `if readsize < <this>: readsize *= <factor>` -/\n'
+                'def CODECS_READSIZE_CAP : Nat := %d\n'
+                'def CODECS_READSIZE_FACTOR : Nat := %d\n\n'
+                '/-- sha256 (first 32 hex digits) of the docstring-free AST of the codecs functions that C18.Model\n'
+                '    transliterates: %s -/\n'
+                'def CODECS_SOURCE_DIGEST : String := "%s"\n\n'
+                'end C18.Generated\n' % (val, rs, cap, factor, ', '.join(CODECS_TRANSLITERATED), digest)}
 
     # ------------------------------------------------------------------ generation
     def cases(self, budget_s):
@@ -313,6 +422,8 @@ class C18(Property):
         for c in self.sandwich():
             yield c
         for c in self.readahead():
+            yield c
+        for c in self.file_family(rng, 2000 if self.thorough else 300):
             yield c
 
     @staticmethod
@@ -407,6 +518,76 @@ class C18(Property):
                 for c in reads:
                     for mk in (('io', 'spooled') if len(files) == 2 else ('io',)):
                         yield {'k': 'M', 'text': text, 'mk': mk, 'files': list(files), 'ops': [list(a), ['s'], list(c)]}
+
+    def file_family(self, rng, n_random):
+        """'F' cases: the plain reference file by itself - Lean `Spec.run` (what every refinement theorem has on its
+        right-hand side) against the real io.BytesIO AND tempfile.TemporaryFile (b), io.StringIO(newline='') (t), the
+        default io.StringIO() (d); beyond the statement's domain too: overwriting writes, (b) seeks and writes past the
+        end (zero-filled gap), reads there"""
+        small = {'b': [['w', '610a62'], ['w', 'c3a9'], ['w', '0a'], ['r', 1], ['ra'], ['rl'], ['rL', 1], ['rs'], ['sk', 0],
+                       ['sk', 2], ['sk', 5], ['sc', 1], ['se', 1], ['n'], ['it'], ['g'], ['wl', ['78', '', '0a79']]],
+                 't': [['w', 'a\r\n\xe9'], ['w', '\r'], ['w', '\nb'], ['r', 1], ['ra'], ['rl'], ['rs'], ['sk', 0], ['sk', 2],
+                       ['sc', 0], ['se', 1], ['n'], ['it'], ['g'], ['wl', ['x', '', '\x0cy']]]}
+        small['d'] = small['t']
+        for ft in ('b', 't', 'd'):
+            for d in (2, 3):
+                for seq in itertools.product(small[ft], repeat=d):
+                    if d == 3 and seq[0][0] not in ('w', 'wl'):
+                        continue
+                    case = {'k': 'F', 'ft': ft, 'ops': [list(o) for o in seq] + [['g'], ['t']]}
+                    if self.file_case_ok(case):
+                        yield case
+        for _ in range(n_random):
+            ft = rng.choice('btd')
+            text = ft != 'b'
+            units = S_UNITS + ['\x0c', '\x85'] if text else B_UNITS
+            ref = io.StringIO(newline='') if text else io.BytesIO()
+            ops = []
+            for i in range(rng.randint(2, 12)):
+                n = len(ref.getvalue())
+                o = rng.choice(['w', 'w', 'wl', 'r', 'ra', 'rl', 'rL', 'rs', 'sk', 'sk', 'sc', 'se', 't', 'g', 'l', 'n', 'it', 'dr']
+                               if i else ['w'])
+                if o == 'w':
+                    p = [rng.choice(units) for _ in range(rng.randint(0, 5))]
+                    op = ['w', ''.join(p) if text else b''.join(p).hex()]
+                elif o == 'wl':
+                    ps = [[rng.choice(units) for _ in range(rng.randint(0, 3))] for _ in range(rng.randint(0, 3))]
+                    op = ['wl', [''.join(q) if text else b''.join(q).hex() for q in ps], rng.choice(WL_FORMS)]
+                elif o == 'r':
+                    op = ['r', rng.randint(0, n + 2)]
+                elif o == 'rL':
+                    op = ['rL', rng.randint(0, 4)]
+                elif o == 'sk':
+                    op = ['sk', rng.randint(0, n if text else n + 3)]
+                elif o == 'sc':
+                    op = ['sc', rng.randint(0, max(0, n - ref.tell()) if text else 3)]
+                elif o == 'se':
+                    op = ['se', rng.randint(0, n)]
+                else:
+                    op = [o]
+                ops.append(op)
+                apply_raw(ref, op, ft)
+            case = {'k': 'F', 'ft': ft, 'ops': ops + [['g'], ['t']]}
+            if self.file_case_ok(case):
+                yield case
+
+    @staticmethod
+    def file_case_ok(case):
+        """inside what the plain-file model claims: seek targets exist for the real objects (never a negative position;
+        for text no position past the end: io.StringIO fills a gap with NUL characters, which the model does not claim)"""
+        ft = case['ft']
+        ref = io.BytesIO() if ft == 'b' else io.StringIO(newline='')
+        for op in case['ops']:
+            n = len(ref.getvalue())
+            if op[0] == 'se' and op[1] > n:
+                return False
+            if ft != 'b' and ((op[0] == 'sk' and op[1] > n) or (op[0] == 'sc' and ref.tell() + op[1] > n)):
+                return False
+            if op[0] in ('w', 'wl') and ref.tell() > n and not written(op, 'B' if ft == 'b' else 'S'):
+                return False    # an EMPTY write past the end: the model fills the gap at once, the real objects only
+                                # when a byte is written (outside the statement: its writes append)
+            apply_raw(ref, op, ft)
+        return True
 
     @staticmethod
     def data_len(case):
@@ -610,16 +791,21 @@ class C18(Property):
             for op in case['ops']:
                 toks.append('s' if op[0] == 's' else 'ra' if op[0] == 'ra' else 'r%d' % op[1])
             return ' '.join(toks)
-        if not reference(case)[0]:
+        if case['k'] == 'F':
+            text = case['ft'] != 'b'
+            toks = ['F', case['ft']]
+        elif not reference(case)[0]:
             return None
-        toks = [case['k'], str(case['ms'])]
+        else:
+            text = case['k'] == 'S'
+            toks = [case['k'], str(case['ms'])]
         if case['k'] == 'S':
             toks.append('R' if case.get('chunk') is None else str(case['chunk']))
         for op in case['ops']:
             if op[0] == 'w':
-                toks.append('w' + (hx(op[1].encode('utf-8')) if case['k'] == 'S' else (op[1] or '-')))
+                toks.append('w' + (hx(op[1].encode('utf-8')) if text else (op[1] or '-')))
             elif op[0] == 'wl':
-                toks.append('W' + ','.join(hx(p.encode('utf-8')) if case['k'] == 'S' else (p or '-') for p in op[1]))
+                toks.append('W' + ','.join(hx(p.encode('utf-8')) if text else (p or '-') for p in op[1]))
             elif op[0] in ARG_OPS:
                 toks.append('%s%d' % (op[0], op[1]))
             else:
@@ -632,6 +818,8 @@ class C18(Property):
         self.stats[case['k']] = self.stats.get(case['k'], 0) + 1
         if case['k'] == 'M':
             return self.impl_mfr(case, iu)
+        if case['k'] == 'F':
+            return self.impl_file(case)
         kind = case['k']
         text = kind == 'S'
         out = []
@@ -666,6 +854,37 @@ class C18(Property):
             except Exception:
                 pass
         return out
+
+    def impl_file(self, case):
+        """the history on every real object the reference file stands for; one trace per object"""
+        ft = case['ft']
+        text = ft != 'b'
+        traces = []
+        for mk in ((io.BytesIO, tempfile.TemporaryFile) if ft == 'b' else
+                   ((lambda: io.StringIO(newline='')),) if ft == 't' else (io.StringIO,)):
+            out = []
+            f = None
+            try:
+                with time_limit(self.case_limit()):
+                    f = mk()
+                    for op in case['ops']:
+                        v = apply_raw(f, op, ft)
+                        if op[0] in ('w', 'wl', 'ro', 'fn'):
+                            v = None
+                        out.append({'r': ['STOP'] if v is StopIteration else canon(v, text), 't': f.tell()})
+                        self.stats['fop:' + op[0]] = self.stats.get('fop:' + op[0], 0) + 1
+            except CaseTimeout:
+                out.append({'exc': 'CaseTimeout'})
+            except Exception as e:
+                out.append({'exc': exc_name(e), 'msg': str(e)[:160]})
+            finally:
+                try:
+                    if f is not None:
+                        f.close()
+                except Exception:
+                    pass
+            traces.append(out)
+        return traces
 
     def case_limit(self):
         """seconds allowed for one history: generous at first, short once the implementation has been seen to
@@ -717,6 +936,8 @@ class C18(Property):
 
     def render(self, case, obs):
         recs = []
+        if case['k'] == 'F':
+            obs = obs[0]
         for o in obs:
             if 'exc' in o:
                 recs.append('X' + o['exc'])
@@ -731,6 +952,8 @@ class C18(Property):
         self._nt = False
         if case['k'] == 'M':
             return self.oracle_mfr(case, obs)
+        if case['k'] == 'F':
+            return self.oracle_file(case, obs)
         in_domain, appending, exp = reference(case)
         if not in_domain or not appending:
             return None        # outside the statement
@@ -757,6 +980,17 @@ class C18(Property):
                 seen_move = True
             if seen_move and base(op) in ('r', 'ra', 'rl', 'rL', 'rs', 'n', 'dr', 'it') and o['r'] not in (['D', '-'], ['L', []], ['STOP']):
                 useful = True
+        if text:
+            # second reading of "io.StringIO": the default constructor, where the theorem about it applies
+            dexp = default_reference(case)
+            if dexp is not None:
+                self.stats['default_StringIO_cases'] = self.stats.get('default_StringIO_cases', 0) + 1
+                for i, op in enumerate(case['ops']):
+                    if [obs[i]['r'], obs[i]['t']] != dexp[i]:
+                        return self.fail('default_stringio', 'op %d %r: returned %s at %r, the default io.StringIO() gives '
+                                         '%s at %r (no lone CR in what is read)' % (i, op, show(obs[i]['r']), obs[i]['t'],
+                                                                                 show(dexp[i][0]), dexp[i][1]),
+                                         i, op, obs[i]['r'], dexp[i][0])
         n = self.data_len(case)
         rolled = n >= case['ms']
         wide = text and any(ord(ch) > 127 for op in case['ops'] if op[0] in ('w', 'wl') for ch in written(op, 'S'))
@@ -767,6 +1001,30 @@ class C18(Property):
         f = Failure(tag, what)
         f.detail = {'i': i, 'op': op, 'got': got, 'want': want}
         return f
+
+    def oracle_file(self, case, obs):
+        """the environment assumption itself: io.BytesIO and tempfile.TemporaryFile are the same abstract file (for the
+        text kinds there is one object; the correspondence with the Lean reference file is the check)"""
+        for tr in obs:
+            for i, o in enumerate(tr):
+                if 'exc' in o:
+                    return Failure('file_raises', 'plain file object raised %s at op %d %r: %s' % (
+                        o['exc'], i, case['ops'][min(i, len(case['ops']) - 1)], o.get('msg')))
+        for tr in obs[1:]:
+            if tr != obs[0]:
+                i = next((j for j in range(min(len(tr), len(obs[0]))) if tr[j] != obs[0][j]), 0)
+                return Failure('file_equiv', 'io.BytesIO and tempfile.TemporaryFile differ at op %d %r: %r vs %r' % (
+                    i, case['ops'][i], obs[0][i], tr[i]))
+        ops = case['ops']
+        moved = False
+        nt = False
+        for op in ops:
+            if op[0] in ('sk', 'sc', 'se'):
+                moved = True
+            if moved and op[0] in ('w', 'wl', 'r', 'ra', 'rl', 'rL', 'rs', 'n', 'it', 'dr'):
+                nt = True
+        self._nt = nt
+        return None
 
     def oracle_mfr(self, case, obs):
         exp = mfr_expected(case)
@@ -787,15 +1045,16 @@ class C18(Property):
     def nontrivial(self, case, obs):
         return getattr(self, '_nt', False)
 
-    # known finding: SpooledStringIO.readline / iteration cut lines at every str.splitlines boundary
+    # known finding (repaired by the round-3 `fix:` commit; the entry stays `known` until that commit is in the tree
+    # under test): SpooledStringIO.readline / iteration cut lines at every str.splitlines boundary
     # (codecs.StreamReader.readline), io.StringIO only at LF / CR / CRLF.  Matched only when the text holds such a
-    # character, the failing op is a line op of a SpooledStringIO, the returned line(s) are exactly the
-    # str.splitlines refinement of what io.StringIO returns, and the implementation still agrees with the model.
+    # character, the failing op is a line op of a SpooledStringIO and the returned line(s) are exactly the
+    # str.splitlines refinement of what io.StringIO returns.  The model follows the REPAIRED code (Lean:
+    # string_refines_StringIO, full clause), so on the unrepaired tree it disagrees with the implementation exactly on
+    # these cases; the runner forgives a correspondence mismatch only on a case classified here.
     def finding_exotic_linebreak(self, case, failure):
         d = getattr(failure, 'detail', None)
         if case.get('k') != 'S' or failure.tag != 'lines' or not d or d['op'][0] not in ('rl', 'n', 'it', 'dr'):
-            return False
-        if getattr(failure, 'model_agrees', None) is False:
             return False
         text_so_far = ''.join(written(op, 'S') for op in case['ops'][:d['i']] if op[0] in ('w', 'wl'))
         if not any(ch in EXOTIC for ch in text_so_far):
@@ -836,6 +1095,8 @@ class C18(Property):
             return
 
         def ok(c):
+            if c['k'] == 'F':
+                return self.file_case_ok(c)
             d, a, _ = reference(c)
             return d and (a or c.get('ow'))
         for i in range(len(ops)):
@@ -844,9 +1105,15 @@ class C18(Property):
                 yield c
         for i, op in enumerate(ops):
             if op[0] == 'w':
-                step = 1 if case['k'] == 'S' else 2
+                step = 1 if case['k'] == 'S' or case.get('ft') in ('t', 'd') else 2
                 for j in range(0, len(op[1]), step):
                     c = dict(case, ops=ops[:i] + [['w', op[1][:j] + op[1][j + step:]]] + ops[i + 1:])
+                    if ok(c):
+                        yield c
+            elif op[0] == 'wl' and case['k'] == 'F':
+                cands = [['wl', op[1][:j] + op[1][j + 1:]] + op[2:] for j in range(len(op[1]))]
+                for new in cands:
+                    c = dict(case, ops=ops[:i] + [new] + ops[i + 1:])
                     if ok(c):
                         yield c
             elif op[0] == 'wl':
@@ -858,7 +1125,7 @@ class C18(Property):
                     c = dict(case, ops=ops[:i] + [new] + ops[i + 1:])
                     if ok(c):
                         yield c
-            elif op[0] in ALIAS:
+            elif op[0] in ALIAS and case['k'] != 'F':
                 c = dict(case, ops=ops[:i] + [[ALIAS[op[0]]]] + ops[i + 1:])
                 if ok(c):
                     yield c
